@@ -353,12 +353,14 @@ func (e *erasureCodingPartStore) getPartWithHealing(ctx context.Context, tx data
 func (e *erasureCodingPartStore) openPartReaders(ctx context.Context, tx database.Tx, partId partstore.PartId) ([]io.ReadCloser, []bool, error) {
 	readers := make([]io.ReadCloser, e.totalShards)
 	healShards := make([]bool, e.totalShards)
+	notFound := 0
 	for i := 0; i < e.totalShards; i++ {
 		rc, err := e.partStores[i].GetPart(ctx, tx, partId)
 		if err != nil {
 			if errors.Is(err, partstore.ErrPartNotFound) {
 				readers[i] = nil
 				healShards[i] = true
+				notFound++
 				continue
 			}
 			closePartReaders(readers)
@@ -384,6 +386,22 @@ func (e *erasureCodingPartStore) openPartReaders(ctx context.Context, tx databas
 			continue
 		}
 		readers[i] = rc
+	}
+	// A part none of whose shards exists does not exist; with fewer than
+	// dataShards usable shards nothing can be decoded (and nothing must be
+	// "healed" from nothing).
+	if notFound == e.totalShards {
+		return nil, nil, partstore.ErrPartNotFound
+	}
+	usable := 0
+	for _, rc := range readers {
+		if rc != nil {
+			usable++
+		}
+	}
+	if usable < e.dataShards {
+		closePartReaders(readers)
+		return nil, nil, fmt.Errorf("insufficient shards: %d of %d required shards readable", usable, e.dataShards)
 	}
 	return readers, healShards, nil
 }
